@@ -82,7 +82,7 @@ def _(c):
 CONFIGS_Q = [(25, 1), (25, 7), (25, 24), (50, 13), (100, 36), (200, 72), (200, 40), (200, 9), (200, 199), (400, 144), (800, 544), (1600, 1088), (1600, 576), (1600, 1027)]
 def _lens(r, tier):
     base = {0, 1, 2, 7, 8, 9, r - 9, r - 8, r - 2, r - 1, r, r + 1, r + 7, r + 8, 2 * r - 2, 2 * r - 1, 2 * r, 2 * r + 1}
-    if tier != 'quick': base |= set(range(0, min(3 * r + 9, 260))) | {3 * r - 1, 3 * r, 3 * r + 8}
+    if tier != 'quick': base |= set(range(0, min(2 * r + 10, 150))) | {3 * r - 1, 3 * r, 3 * r + 8}
     return sorted(x for x in base if x >= 0)
 def _sponge_cases(tier):
     out = []
@@ -93,7 +93,7 @@ def _sponge_cases(tier):
                 out.append({'b': b, 'r': r, 'L': L, 'nist': nist})
     return out
 @obligation(P, 'crysp.keccak.Keccak.__call__/bounded', cls='B', opaque=K.NAMES_F, cases=_sponge_cases, timeout=200,
-            bound='14 (width, rate) configurations incl. rates that are not multiples of 8 and rates below 8; message bit lengths around 0, r and 2r (quick) / every length up to 3r+8 or 260 (thorough); both bit-order conventions; output longer than the rate; contents symbolic',
+            bound='14 (width, rate) configurations incl. rates that are not multiples of 8 and rates below 8; message bit lengths around 0, r and 2r (quick) / every length up to 2r+9 or 149, and 3r-1, 3r, 3r+8 (thorough); both bit-order conventions; output longer than the rate; contents symbolic',
             funcs=['crysp.keccak.Keccak.__call__', 'crysp.keccak.Keccak.iterblocks', 'crysp.keccak.State.load', 'crysp.keccak.State.dump', 'crysp.keccak.Keccak.__init__', 'crysp.keccak.Keccak.setrate'])
 def _(c):
     b, r, L, nist = c.case('b'), c.case('r'), c.case('L'), c.case('nist'); w = b // 25
